@@ -1,7 +1,7 @@
 """C05 - results always reflect the current data, regions and links - never a stale cache."""
 PROPERTY = 'C05'
 LEVEL = 'proof'
-DEDUCTIVE = ['contracts.c05_cache']
+DEDUCTIVE = ['contracts.c05_cache', 'contracts.c05_refresh']
 BUDGET_S = {'quick': 20.0, 'thorough': 60.0}
 MIN_OBLIGATIONS = {'quick': 100, 'thorough': 100}
 BOUNDED_FLOOR = {'quick': 300, 'thorough': 1000}
